@@ -231,7 +231,7 @@ func checkCLIFiles(p *Program, r *Result) {
 			// the compare loop
 			var cmpLoop *RangeLoop
 			for _, l := range rangeLoops(mainFn) {
-				if !p.feasDominates(l.Exit, call.Block()) {
+				if !p.feasDominates(l.Exit, call.Block()) && !completedOrEmpty(p, mainFn, l, call.Block()) {
 					continue
 				}
 				// body contains a comparison elem == absPath(name) guarding a no-return call
@@ -410,4 +410,45 @@ func checkCLIFiles(p *Program, r *Result) {
 			r.Check(p.NoReturn(fn), fn.String(), "noreturn", "", "every path ends in os.Exit / log.Fatalf / panic", "the helper can return normally: code after a reported failure keeps running and may exit 0")
 		}
 	}
+}
+
+// completedOrEmpty: every path from the entry to block b either leaves the loop l through its
+// header (it ran to completion) or takes a branch on which the ranged value is known to be empty
+// (nothing to compare: `if len(inUse) == 0 { return false }` in front of the loop).
+func completedOrEmpty(p *Program, fn *ssa.Function, l *RangeLoop, b *ssa.BasicBlock) bool {
+	tb := p.TB(fn)
+	over := short(tb.Term(l.Over).String())
+	seen := map[*ssa.BasicBlock]bool{}
+	work := []*ssa.BasicBlock{fn.Blocks[0]}
+	for len(work) > 0 {
+		x := work[len(work)-1]
+		work = work[:len(work)-1]
+		if seen[x] {
+			continue
+		}
+		seen[x] = true
+		if x == b {
+			return false
+		}
+		_, isIf := x.Instrs[len(x.Instrs)-1].(*ssa.If)
+		feas := map[*ssa.BasicBlock]bool{}
+		for _, su := range p.feasibleSuccs(x) {
+			feas[su] = true
+		}
+		for k, su := range x.Succs {
+			if !feas[su] || x == l.Header && su == l.Exit {
+				continue
+			}
+			if isIf {
+				fe := tb.FactsOnEdge(x, k)
+				if len(fe) > 0 {
+					if s := short(fe[len(fe)-1].String()); s == "len("+over+") == 0" || s == "len("+over+") <= 0" || s == "len("+over+") < 1" {
+						continue
+					}
+				}
+			}
+			work = append(work, su)
+		}
+	}
+	return true
 }
